@@ -224,7 +224,7 @@ def run_batch(plan, tier, seed, n_runs=None, workers=None, wall_cap_s=None):
     t0 = time.time()
     n_runs = n_runs if n_runs is not None else plan.runs[tier]
     workers = workers or int(os.environ.get("VERIF_WORKERS", "0")) or min(16, os.cpu_count() or 1)
-    wall_cap_s = wall_cap_s or (600 if tier == "quick" else 7200)
+    wall_cap_s = wall_cap_s or (900 if tier == "quick" else 18000)
     chunk_deadline = wall_cap_s if tier == "thorough" else min(wall_cap_s, 420)
     chunks = [(plan, tier, seed, s, min(n_runs, s + CHUNK), chunk_deadline) for s in range(0, n_runs, CHUNK)]
     results = []
